@@ -6,6 +6,7 @@ package main
 
 import (
 	"go/ast"
+	"go/constant"
 	"go/token"
 	"go/types"
 	"sort"
@@ -383,28 +384,7 @@ func rSemaphoreFresh(id string) func(w *World, r *Report) {
 				}
 				n++
 				// resolve the channel: a free variable bound to a value of Run, or a value of Run itself
-				ch := snd.Chan
-				for step := 0; step < 10; step++ {
-					next := ssa.Value(nil)
-					switch x := ch.(type) {
-					case *ssa.UnOp:
-						if x.Op == token.MUL {
-							next = x.X
-						}
-					case *ssa.Alloc:
-						if vals := storesInto(x); len(vals) == 1 {
-							next = vals[0]
-						}
-					case *ssa.FreeVar:
-						next = freeVarBinding(x)
-					case *ssa.Parameter:
-						next = soleArgument(x)
-					}
-					if next == nil {
-						break
-					}
-					ch = next
-				}
+				ch := resolveLaunched(snd.Chan)
 				mk, isMake := ch.(*ssa.MakeChan)
 				good := isMake
 				if isMake {
@@ -418,6 +398,60 @@ func rSemaphoreFresh(id string) func(w *World, r *Report) {
 			ru.Bad("semaphore/fresh", w.Pos(fn.Pos()), "no token send found in Run")
 		}
 	}
+}
+
+// resolveLaunched follows a value used inside a goroutine literal back to the value of the launching function it
+// stands for: through loads, write-once cells, captured variables, parameters with a single argument, and fields of
+// a struct that the launching function allocates and fills once (`runner := &taskRunner{done: done, …}`).
+func resolveLaunched(v ssa.Value) ssa.Value {
+	for step := 0; step < 16; step++ {
+		next := ssa.Value(nil)
+		switch x := v.(type) {
+		case *ssa.UnOp:
+			if x.Op == token.MUL {
+				if fa, ok := x.X.(*ssa.FieldAddr); ok {
+					if base, ok := resolveLaunched(fa.X).(*ssa.Alloc); ok && base.Referrers() != nil {
+						var vals []ssa.Value
+						whole := false
+						for _, r := range *base.Referrers() {
+							switch u := r.(type) {
+							case *ssa.FieldAddr:
+								if u.Field == fa.Field && u.Referrers() != nil {
+									for _, r2 := range *u.Referrers() {
+										if st, ok := r2.(*ssa.Store); ok && st.Addr == ssa.Value(u) {
+											vals = append(vals, st.Val)
+										}
+									}
+								}
+							case *ssa.Store:
+								if u.Addr == ssa.Value(base) {
+									whole = true
+								}
+							}
+						}
+						if len(vals) == 1 && !whole {
+							next = vals[0]
+						}
+					}
+				} else {
+					next = x.X
+				}
+			}
+		case *ssa.Alloc:
+			if vals := storesInto(x); len(vals) == 1 {
+				next = vals[0]
+			}
+		case *ssa.FreeVar:
+			next = freeVarBinding(x)
+		case *ssa.Parameter:
+			next = soleArgument(x)
+		}
+		if next == nil {
+			break
+		}
+		v = next
+	}
+	return v
 }
 
 // soleArgument: the one value passed for parameter p of a function literal at all its call / go / defer sites in the
@@ -1395,5 +1429,281 @@ func init() {
 		subRule(w, r, rC07Bundling, "R04.14", "an option whose value is attached never reaches for the next token - which may be `--`: the bundled form keeps its attached value (same obligations as C07 R07.4)", 3)
 	}, func(w *World, r *Report) {
 		subRule(w, r, rC07SingleDash, "R04.15", "an option whose value is glued to it never reaches for the next token - which may be `--`: single-dash mode leaves the value out only when nothing follows the first rune (same obligations as C07 R07.5)", 3)
+	})
+}
+
+// rSplitterRejects (R01.24 / R03.22 / R07.15): the tokeniser answers "not an option" only for the terminator and for
+// tokens its expression does not match. Decided per class of token (first character `-`; first character `/` with
+// the windows flag) by the value-sensitive reach: with the length, the first byte, the HasPrefix tests and the flag
+// fixed accordingly, no return of `false` may be reachable except through the "no match" edge of the expression or
+// the `s == "--"` case. A shortcut in front of the expression (a length limit, a character test slightly too wide)
+// that sends such a token away turns `--name=value` into a positional argument.
+func rSplitterRejects(id string) func(w *World, r *Report) {
+	return func(w *World, r *Report) {
+		ru := r.Rule(id, "the tokeniser rejects only what its expression rejects: for a token that starts with `-` (or with `/` under the windows flag) every path to a `false` answer passes the no-match edge of FindStringSubmatch or the `--` case", 3)
+		fn := w.Fn(nIsOption)
+		if fn == nil || len(fn.Params) < 3 {
+			ru.Undecided("anchor", "-", "isOption not found")
+			return
+		}
+		s := fn.Params[0]
+		var winP *ssa.Parameter
+		for _, p := range fn.Params {
+			if b, ok := p.Type().Underlying().(*types.Basic); ok && b.Kind() == types.Bool {
+				winP = p
+			}
+		}
+		ig := buildIG(fn)
+		isS := func(v ssa.Value) bool { return v == ssa.Value(s) }
+		allowed := func(term ssa.Instruction, k int) bool {
+			iff, ok := term.(*ssa.If)
+			if !ok {
+				return true
+			}
+			for _, f := range condFacts(iff.Cond, k == 0, iff) {
+				if f.Y == nil {
+					continue
+				}
+				// s == "--"
+				if f.Op == token.EQL && isS(f.X) {
+					if c, ok := constString(f.Y); ok && c == "--" {
+						return false
+					}
+				}
+				// the token is not empty in any of the classes: len(s) == 0, s == ""
+				if c, ok := lenOf(f.X); ok && isS(c) {
+					if k0, ok := constInt(f.Y); ok && ((f.Op == token.EQL && k0 == 0) || (f.Op == token.LEQ && k0 == 0) || (f.Op == token.LSS && k0 == 1)) {
+						return false
+					}
+				}
+				if f.Op == token.EQL && isS(f.X) {
+					if c, ok := constString(f.Y); ok && c == "" {
+						return false
+					}
+				}
+				// len(match) == 0 / <= 0 / < 1 on a submatch result
+				if c, ok := lenOf(f.X); ok && isSubmatchResult(c, map[ssa.Value]bool{}) {
+					if k0, ok := constInt(f.Y); ok && ((f.Op == token.EQL && k0 == 0) || (f.Op == token.LEQ && k0 == 0) || (f.Op == token.LSS && k0 == 1)) {
+						return false
+					}
+				}
+				if isNilConst(f.Y) && f.Op == token.EQL && isSubmatchResult(f.X, map[ssa.Value]bool{}) {
+					return false
+				}
+			}
+			return true
+		}
+		type class struct {
+			name  string
+			first byte
+			win   bool
+		}
+		for _, cl := range []class{{"dash", '-', false}, {"dash/windows", '-', true}, {"slash/windows", '/', true}} {
+			env := triEnv{}
+			if winP != nil {
+				env[winP] = vsVal{c: constant.MakeBool(cl.win)}
+			}
+			eachInstr(fn, func(in ssa.Instruction) {
+				switch x := in.(type) {
+				case *ssa.Call:
+					switch calleeName(x) {
+					case "strings.HasPrefix":
+						if p, ok := constString(x.Call.Args[1]); ok && isS(x.Call.Args[0]) && len(p) == 1 {
+							env[x] = vsVal{c: constant.MakeBool(p[0] == cl.first)}
+						}
+					}
+				case *ssa.Index:
+					if isS(x.X) {
+						if k0, ok := constInt(x.Index); ok && k0 == 0 {
+							env[x] = vsVal{c: constant.MakeInt64(int64(cl.first))}
+						}
+					}
+				}
+			})
+			seen, ok := ig.reachVSInit([]int{0}, nil, allowed, env)
+			if !ok {
+				seen = ig.reachFromE([]int{0}, nil, allowed)
+			}
+			bad := ""
+			for i, sn := range seen {
+				ret, isRet := ig.instrs[i].(*ssa.Return)
+				if !isRet || !sn || len(ret.Results) < 2 {
+					continue
+				}
+				if c, ok := ret.Results[1].(*ssa.Const); ok && c.Value != nil && c.Value.Kind() == constant.Bool && !constant.BoolVal(c.Value) {
+					bad = w.IPos(ret)
+				}
+			}
+			ru.Check(bad == "", "splitter/rejects/"+cl.name, w.Pos(fn.Pos()), "`false` only behind the no-match edge or the `--` case", "the tokeniser can answer `not an option` (at "+bad+") for a token of this class that its expression would match: `--name=value` (long, odd, or merely unusual) becomes a positional argument and the option keeps its default")
+		}
+	}
+}
+
+func init() {
+	for prop, id := range map[string]string{"C01": "R01.24", "C03": "R03.22", "C07": "R07.15"} {
+		addRules(prop, rSplitterRejects(id))
+	}
+	addRules("C01", typestateRule("R01.23"))
+	addRules("C06", typestateRule("R06.20"))
+	addRules("C03", func(w *World, r *Report) {
+		subRule(w, r, rC01Splitter, "R03.21", "a token is read the same way by every path of the tokeniser: name and attached value are cut out of the token by submatch / one leading separator / per-rune split only (same obligations as C01 R01.2)", 5)
+	})
+}
+
+// rAttemptBeforeReport (R14.14 / R13.14 / R16.23): the goroutine that runs a task reports on the completion channel
+// only after the task's function was called at least once. Decided by the value-sensitive reach with the retry budget
+// fixed at its smallest value (Retries = 0: the loop `i = 0; i <= Retries` runs once): from the goroutine's entry no
+// send on the completion channel may be reachable without passing the call. A check placed in front of the first
+// attempt (`if ctx.Err() != nil { break }`) reports a task that never ran with the nil error the variable started with:
+// its dependents are started and Run returns nil.
+func rAttemptBeforeReport(id string) func(w *World, r *Report) {
+	return func(w *World, r *Report) {
+		ru := r.Rule(id, "a task is reported only after an attempt: in the goroutine that calls Task.Fn no send on the completion channel is reachable before the first call (retry budget fixed at 0)", 1)
+		calls := taskFnCalls(w)
+		if len(calls) == 0 {
+			ru.Undecided("call-sites", "-", "no Task.Fn call site in package dag")
+			return
+		}
+		for _, c := range calls {
+			fn := c.Parent()
+			ig := buildIG(fn)
+			env := triEnv{}
+			eachInstr(fn, func(in ssa.Instruction) {
+				if ld, ok := in.(*ssa.UnOp); ok {
+					if _, isR := loadOfFieldNamed(ld, "Retries"); isR {
+						env[ld] = vsVal{c: constant.MakeInt64(0)}
+					}
+				}
+			})
+			stop := func(in ssa.Instruction) bool { return in == ssa.Instruction(c) }
+			seen, ok := ig.reachVSInit([]int{0}, stop, nil, env)
+			if !ok {
+				seen = ig.reachFromE([]int{0}, stop, nil)
+			}
+			bad := ""
+			n := 0
+			eachInstr(fn, func(in ssa.Instruction) {
+				snd, ok := in.(*ssa.Send)
+				if !ok || !isCompletionChan(snd.Chan.Type()) {
+					return
+				}
+				n++
+				if seen[ig.idx[in]] {
+					bad = w.IPos(in)
+				}
+			})
+			if n == 0 {
+				ru.Bad("report/after-attempt", w.IPos(c), "the goroutine that calls the task never reports on the completion channel")
+				continue
+			}
+			ru.Check(bad == "", "report/after-attempt", w.IPos(c), "every report follows a call of the task's function", "the completion message (at "+bad+") can be sent before the task's function was ever called: a task that did not run is reported with whatever the error variable held (nil) - its dependents start and Run returns nil")
+		}
+	}
+}
+
+func init() {
+	for prop, id := range map[string]string{"C14": "R14.14", "C13": "R13.14", "C16": "R16.23"} {
+		addRules(prop, rAttemptBeforeReport(id))
+	}
+	addRules("C12", typestateRule("R12.13"))
+	addRules("C11", rNoTokenDropped("R11.21"))
+	addRules("C07", func(w *World, r *Report) {
+		subRule(w, r, rC10Descent, "R07.16", "a token that looks like an option is an option in every mode: nothing but the splitter decides that a dashed token is plain text (same obligations as C10 R10.3)", 2)
+	})
+}
+
+// sliceOrigins: the values a slice value may share its backing array with: through phis, re-slicing, and the first
+// operand of append (append writes into the spare capacity of its first operand).
+func sliceOrigins(v ssa.Value, seen map[ssa.Value]bool) []ssa.Value {
+	if v == nil || seen[v] {
+		return nil
+	}
+	seen[v] = true
+	switch x := v.(type) {
+	case *ssa.Phi:
+		var out []ssa.Value
+		for _, e := range x.Edges {
+			out = append(out, sliceOrigins(e, seen)...)
+		}
+		return out
+	case *ssa.Slice:
+		if _, isSlice := x.X.Type().Underlying().(*types.Slice); isSlice {
+			return sliceOrigins(x.X, seen)
+		}
+	case *ssa.Call:
+		if calleeName(x) == "builtin:append" && len(x.Call.Args) > 0 {
+			return sliceOrigins(x.Call.Args[0], seen)
+		}
+	case *ssa.ChangeType:
+		return sliceOrigins(x.X, seen)
+	}
+	return []ssa.Value{v}
+}
+
+// rCompletionsFresh (R20.11 / R17.18): the completion list that the parser sorts and edits in place is its own: no
+// value it may share a backing array with is a slice held by the program tree, an option, or handed in by the caller.
+// `completions = node.Suggestions` (no copy, "fast path") makes the sort and the bash trailing-space edit write into
+// the tree: the same request answered twice gives different lists.
+func rCompletionsFresh(id string) func(w *World, r *Report) {
+	return func(w *World, r *Report) {
+		ru := r.Rule(id, "answers do not depend on earlier requests: a slice that parseCLIArgs sorts or stores into shares no backing array with a field of the tree / an option or with a parameter (it is built by append from a literal or nil)", 1)
+		fn := w.Fn(nParseCLI)
+		if fn == nil {
+			ru.Undecided("anchor", "-", "parseCLIArgs not found")
+			return
+		}
+		n := 0
+		check := func(in ssa.Instruction, sl ssa.Value, what string) {
+			if _, isSlice := sl.Type().Underlying().(*types.Slice); !isSlice {
+				return
+			}
+			n++
+			bad := ""
+			for _, o := range sliceOrigins(sl, map[ssa.Value]bool{}) {
+				switch x := o.(type) {
+				case *ssa.UnOp:
+					if fa, ok := x.X.(*ssa.FieldAddr); ok && x.Op == token.MUL {
+						bad = "field " + fieldOfAddr(fa).Name()
+					}
+				case *ssa.Parameter:
+					bad = "parameter " + x.Name()
+				case *ssa.Lookup:
+					bad = "an element of a table"
+				}
+			}
+			ru.Check(bad == "", "in-place/"+what, w.IPos(in), "the slice is the function's own", "a slice that may be "+bad+" itself (not a copy) is "+what+" in place: the tree (or the caller's slice) changes with every request")
+		}
+		for _, f := range funcsWithAnon(fn) {
+			eachInstr(f, func(in ssa.Instruction) {
+				switch x := in.(type) {
+				case *ssa.Call:
+					switch calleeBase(x) {
+					case "sort.Strings", "sort.Ints", "sort.Float64s", "slices.Sort", "slices.SortFunc", "slices.SortStableFunc", "slices.Reverse", "sort.Slice", "sort.SliceStable":
+						if len(x.Call.Args) > 0 {
+							a := x.Call.Args[0]
+							if mi, ok := a.(*ssa.MakeInterface); ok {
+								a = mi.X
+							}
+							check(in, a, "sorted")
+						}
+					}
+				case *ssa.Store:
+					if ia, ok := x.Addr.(*ssa.IndexAddr); ok {
+						check(in, ia.X, "written")
+					}
+				}
+			})
+		}
+		if n == 0 {
+			ru.Present("in-place", w.Pos(fn.Pos()), "parseCLIArgs sorts and edits no slice in place")
+		}
+	}
+}
+
+func init() {
+	addRules("C20", rCompletionsFresh("R20.11"))
+	addRules("C17", rCompletionsFresh("R17.18"))
+	addRules("C14", func(w *World, r *Report) {
+		subRule(w, r, rC13Readiness, "R14.15", "the dependents of a failed or skip-parents task are never offered: a vertex is offered only when none of its dependencies is pending or in progress, whatever else happened in the run (same obligations as C13 R13.2)", 4)
 	})
 }
